@@ -242,37 +242,38 @@ ASSUME RenderRange(RangeOf(<< AltOf(<< CmpOf(">=", PN(1, 2, 3)), CmpOf("<", PN2(
          = <<62, 61, 49, 46, 50, 46, 51, 32, 60, 50, 46, 48, 124, 124, 94, 48, 46, 120>>
 
 \* ---------------------------------------------------------------- Range::parse postcondition
-\* the range text has no comparator at all that could be valid: every token is garbage (used when no AST is known)
+\* clauses that need the syntax tree r of the text (given with the case, or computed by RangeText.tla)
+JRParseAst(e, r) ==
+  IF ~WfRange(r) THEN {}
+  ELSE IF e.out = "err" THEN
+         Chk(MayFail(r), "C01:rejected-satisfiable-text")
+    \cup Chk(NoValid(r) => e.err.kind = "NoValidRanges", "C17:kind-novalidranges")
+  ELSE
+    \* only versions of the quantifier: components within MAX_SAFE_INTEGER
+    LET O == SelectSeq(e.obs, LAMBDA o : WfVer(o.v)) IN
+         (IF \A k \in Idx(O) : O[k].r = Means(r, O[k].v) THEN {}
+          ELSE \* does the specification with some named deviation(s) reproduce every observation?
+               LET devs == {S \in (SUBSET KnownDeviations) \ {{}} : \A k \in Idx(O) : O[k].r = MeansD(r, O[k].v, S)}
+                   least == {S \in devs : \A T \in devs : Cardinality(S) <= Cardinality(T)} IN
+               IF devs = {} THEN {"C01:satisfies"} ELSE {"C01:satisfies@" \o DevName(S) : S \in least})
+    \cup Chk(\A k \in Idx(O) : O[k].vr = O[k].r, "C01:version-satisfies-agrees")
+    \cup Chk(~NoValid(r), "C01:accepted-without-valid-comparator")
+    \cup (IF Len(r.alts) = 1 /\ Len(e.val) <= 1 THEN
+            \* C03, phrased as the statement is: given the bounds the crate built
+            Chk(\A k \in Idx(O) :
+                  O[k].r <=> (RInB(e.val, O[k].v) /\ (~IsPre(O[k].v) \/ \E tg \in Tags(r.alts[1]) : SameTuple(tg, O[k].v))),
+                "C03:gate-by-written-tags")
+          ELSE {})
+    \cup Chk(\A k \in Idx(O) : \A j \in Idx(O) : (Key(O[k].v) = Key(O[j].v)) => (O[k].r = O[j].r), "C03:build-ignored")
+
 JRParse(e) ==
   LET t == e.text IN
   \* ---- C17 / C06, for every recorded parse
      (IF e.out = "err" THEN JErr(t, e.err) \cup Chk(e.err.kind # "MaxLengthError", "C17:kind-maxlength-from-range-parse") ELSE {})
   \cup Chk(e.us <= 50000 + 100 * Len(t), "C06:time-budget")
   \cup (IF e.out = "ok" THEN Chk(e.fromstr_eq, "X:fromstr-agrees") ELSE {})
-  \* ---- with a known syntax tree: C01, C03
+  \* ---- with a syntax tree given by the generator: C01, C03
   \cup (IF "ast" \in DOMAIN e THEN
-          LET r == e.ast IN
-          IF RenderRange(r) # t THEN {"TOOL:render-mismatch"}
-          ELSE IF ~WfRange(r) THEN {}
-          ELSE IF e.out = "err" THEN
-                 Chk(MayFail(r), "C01:rejected-satisfiable-text")
-            \cup Chk(NoValid(r) => e.err.kind = "NoValidRanges", "C17:kind-novalidranges")
-          ELSE
-            \* only versions of the quantifier: components within MAX_SAFE_INTEGER
-            LET O == SelectSeq(e.obs, LAMBDA o : WfVer(o.v)) IN
-                 (IF \A k \in Idx(O) : O[k].r = Means(r, O[k].v) THEN {}
-                  ELSE \* does the specification with some named deviation(s) reproduce every observation?
-                       LET devs == {S \in (SUBSET KnownDeviations) \ {{}} : \A k \in Idx(O) : O[k].r = MeansD(r, O[k].v, S)}
-                           least == {S \in devs : \A T \in devs : Cardinality(S) <= Cardinality(T)} IN
-                       IF devs = {} THEN {"C01:satisfies"} ELSE {"C01:satisfies@" \o DevName(S) : S \in least})
-            \cup Chk(\A k \in Idx(O) : O[k].vr = O[k].r, "C01:version-satisfies-agrees")
-            \cup Chk(~NoValid(r), "C01:accepted-without-valid-comparator")
-            \cup (IF Len(r.alts) = 1 /\ Len(e.val) <= 1 THEN
-                    \* C03, phrased as the statement is: given the bounds the crate built
-                    Chk(\A k \in Idx(O) :
-                          O[k].r <=> (RInB(e.val, O[k].v) /\ (~IsPre(O[k].v) \/ \E tg \in Tags(r.alts[1]) : SameTuple(tg, O[k].v))),
-                        "C03:gate-by-written-tags")
-                  ELSE {})
-            \cup Chk(\A k \in Idx(O) : \A j \in Idx(O) : (Key(O[k].v) = Key(O[j].v)) => (O[k].r = O[j].r), "C03:build-ignored")
+          (IF RenderRange(e.ast) # t THEN {"TOOL:render-mismatch"} ELSE JRParseAst(e, e.ast))
         ELSE {})
 =============================================================================
